@@ -600,8 +600,9 @@ def run_case(spec, counters=None, world=None):
         if reads2 != reads:
             idx = [i for i, (a, b) in enumerate(zip(reads, reads2)) if a != b][0]
             q = QUERIES[idx]
-            return ({"fingerprint": "C16/regroup-differs",
-                     "detail": f"same registration sequence, different batching: get_metric(axes={list(q[0])}, X:{q[1]},Y:{q[2]}) "
+            return ({"fingerprint": "C16/final-registry-differs" if alt.get("direct") else "C16/regroup-differs",
+                     "detail": ("same final registry, registered directly: " if alt.get("direct") else
+                                "same registration sequence, different batching: ") + f"get_metric(axes={list(q[0])}, X:{q[1]},Y:{q[2]}) "
                                f"= {name_of(reads[idx]) if isinstance(reads[idx], float) else reads[idx]} vs "
                                f"{name_of(reads2[idx]) if isinstance(reads2[idx], float) else reads2[idx]}; regrouped history: {alt}"},
                     outcomes)
@@ -617,6 +618,15 @@ def make_case(seed_i, tier):
         seq = flatten(h)
         rg = core.stream(seed_i, "regroup")
         spec["regroupings"] = [regroup(rg, seq, "random"), regroup(rg, seq, "single")]
+        # "what get_metric returns depends only on that final registry": a third history registers the final
+        # registry directly - per axis set one call listing the slot holders in slot order, no overwrites
+        m = Model()
+        for axes, v, ow in seq:
+            m.apply_one(axes, v, ow)
+        direct = [{"key": sorted(k), "keyform": "tuple", "value": [n for _, n in lst], "valueform": "list",
+                   "overwrite": False, "fault": None} for k, lst in m.reg.items() if lst]
+        if direct and any(ow for _, _, ow in seq):
+            spec["regroupings"].append({"ctor": [], "calls": direct, "faulty": False, "direct": True})
     return spec
 
 
